@@ -40,7 +40,14 @@ pub struct Prog {
 #[derive(Clone, Debug, Serialize, Deserialize, Hash)]
 pub struct ConcCase {
     pub threads: Vec<Prog>,
+    /// probe every fresh port with try_send / receive+release (false: fewer yield points)
+    #[serde(default = "yes")]
+    pub probe: bool,
     pub sched: Schedule,
+}
+
+fn yes() -> bool {
+    true
 }
 
 enum Holder {
@@ -89,6 +96,9 @@ impl Env<'_> {
     /// oracle (3): an attach that returned Ok is usable
     fn probe(&self, t: usize, h: &Holder) {
         self.exists_check(t);
+        if !self.case.probe {
+            return;
+        }
         let id = ChannelId::new(0);
         match h {
             Holder::S(s) => {
@@ -263,15 +273,19 @@ fn judge(c: &ConcCase, env: &Env, log: &[Ev], info: &sched::RunInfo) -> Result<J
     // ---- attach outcomes ------------------------------------------------------------------------
     // occupied(h) = the role bit of holder h is certainly set; maybe(h) = it may be set
     let occupied = |h: &Attach| (h.end, h.detach.map(|d| d.0).unwrap_or(INF));
-    let maybe = |h: &Attach| (h.begin, h.detach.map(|d| d.1).unwrap_or(INF));
     let whole = |a: &Attach| (a.begin, if a.res.is_ok() { a.detach.map(|d| d.1).unwrap_or(INF) } else { a.end });
     let mut nontrivial = false;
     for a in &attaches {
         let span = (a.begin, a.end);
         let same_role_holders = attaches.iter().filter(|h| h.t != a.t && h.res.is_ok() && role(h.t) == role(a.t));
         let covered = same_role_holders.clone().any(|h| occupied(h).0 < a.begin && a.end < occupied(h).1);
-        let touched = same_role_holders.clone().any(|h| overlap(maybe(h), span));
-        let others_overlap = attaches.iter().any(|o| o.t != a.t && (overlap((o.begin, o.end), span) || o.detach.map(|d| overlap((d.0, d.1), span)).unwrap_or(false)));
+        // the role bit may be set by a holder from the begin of its attach to the end of its detach, and
+        // by a same-role attach that is refused later (mismatch) from its begin to its end. A C11-stale
+        // (relaxed) load of the state byte may additionally show any earlier value: with stale reads
+        // in the run "overlapping" weakens to "began before the attach ended".
+        let stale = info.stale_reads > 0;
+        let touched = attaches.iter().any(|o| o.t != a.t && role(o.t) == role(a.t) && (overlap(whole(o), span) || (stale && o.begin < a.end)));
+        let others_overlap = attaches.iter().any(|o| o.t != a.t && (overlap((o.begin, o.end), span) || o.detach.map(|d| overlap((d.0, d.1), span)).unwrap_or(false) || (stale && o.begin < a.end)));
         match a.res {
             Ok(()) => {
                 ensure!(!covered, "conc.attach_beside_live_holder", "thread {} attached although the role was held throughout: {}", a.t, dump());
@@ -440,6 +454,7 @@ fn failed_attach_raced(log: &[Ev]) -> bool {
 pub fn run_conc(c: &ConcCase, obs: &mut Obs) -> Result<sched::RunInfo, Failure> {
     ensure!((2..=3).contains(&c.threads.len()), "conc.case", "2..3 threads expected");
     mtx::reset();
+    mtx::WEAK.store(c.sched.weak, Ordering::SeqCst);
     let (name, _) = fresh_name();
     let env = Env { name, cfg: config::<Pl>(), log: Mutex::new(vec![]), next: AtomicU64::new(1), left: Mutex::new((0..c.threads.len()).map(|_| None).collect()), case: c };
     let contended_before = mtx::CONTENDED.load(Ordering::Relaxed);
@@ -508,6 +523,9 @@ fn conc_shrinks(c: &ConcCase) -> Vec<ConcCase> {
     for s in sched::shrink_schedule(&c.sched) {
         out.push(ConcCase { sched: s, ..c.clone() });
     }
+    if c.probe {
+        out.push(ConcCase { probe: false, ..c.clone() });
+    }
     if c.threads.len() > 2 {
         for i in 0..c.threads.len() {
             let mut n = c.clone();
@@ -565,33 +583,39 @@ fn prog(role: u8, var: u8, ops: &[TOp]) -> Prog {
     Prog { role, var, ops: ops.to_vec() }
 }
 
-/// the tiny programs whose preemption lists are enumerated exhaustively
-fn tiny_programs(thorough: bool) -> Vec<Vec<Prog>> {
+/// the tiny programs whose preemption lists are enumerated exhaustively: (threads, probes, bound)
+fn tiny_programs(thorough: bool) -> Vec<(Vec<Prog>, bool, usize)> {
     use TOp::*;
+    // quick: two preemptions for the two core programs, one for the others;
+    // thorough: two for all, three for the core program without probes
+    let rest = if thorough { 2 } else { 1 };
     let mut v = vec![
         // the DESIGN program: sender and receiver come and go
-        vec![prog(0, 0, &[Create, Drop]), prog(1, 0, &[Create, Drop])],
-        vec![prog(1, 0, &[Create, Drop]), prog(0, 0, &[Create, Drop])],
+        (vec![prog(0, 0, &[Create, Drop]), prog(1, 0, &[Create, Drop])], true, 2),
         // same role on both threads (DESIGN §6 row 7 lives here)
-        vec![prog(0, 0, &[Create, Drop]), prog(0, 0, &[Create, Drop])],
-        vec![prog(1, 0, &[Create, Check, Drop]), prog(1, 0, &[Create])],
+        (vec![prog(0, 0, &[Create, Drop]), prog(0, 0, &[Create, Drop])], false, 2),
+        (vec![prog(0, 0, &[Create, Drop]), prog(0, 0, &[Create, Drop])], true, rest),
+        (vec![prog(1, 0, &[Create, Drop]), prog(0, 0, &[Create, Drop])], true, rest),
+        (vec![prog(1, 0, &[Create, Check, Drop]), prog(1, 0, &[Create])], true, rest),
         // forced removal on behalf of a dead peer against an attach of the other role
-        vec![prog(0, 0, &[Create, AbandonRemove]), prog(1, 0, &[Create, Drop])],
-        vec![prog(1, 0, &[Create, AbandonRemove]), prog(0, 0, &[Create])],
+        (vec![prog(0, 0, &[Create, AbandonRemove]), prog(1, 0, &[Create, Drop])], true, rest),
+        (vec![prog(1, 0, &[Create, AbandonRemove]), prog(0, 0, &[Create])], true, rest),
         // the holder stays until quiescence
-        vec![prog(0, 0, &[Create]), prog(1, 0, &[Create, Drop, Create])],
+        (vec![prog(0, 0, &[Create]), prog(1, 0, &[Create, Drop, Create])], true, rest),
         // re-attach after the teardown
-        vec![prog(0, 0, &[Create, Drop, Create]), prog(1, 0, &[Create, Drop])],
+        (vec![prog(0, 0, &[Create, Drop, Create]), prog(1, 0, &[Create, Drop])], true, rest),
         // mismatching parameters against attach / detach
-        vec![prog(0, 0, &[Create, Drop]), prog(1, 1, &[Create, Drop])],
-        vec![prog(0, 3, &[Create]), prog(1, 0, &[Create, Drop])],
+        (vec![prog(0, 0, &[Create, Drop]), prog(1, 1, &[Create, Drop])], true, rest),
+        (vec![prog(0, 3, &[Create]), prog(1, 0, &[Create, Drop])], true, rest),
+        // three threads: two of one role, one of the other
+        (vec![prog(0, 0, &[Create, Drop]), prog(1, 0, &[Create, Drop]), prog(0, 0, &[Create])], true, 1),
+        (vec![prog(1, 0, &[Create, AbandonRemove]), prog(0, 0, &[Create, Drop]), prog(1, 0, &[Create])], false, 1),
     ];
     if thorough {
-        v.push(vec![prog(0, 0, &[Create, Drop, Create, Drop]), prog(1, 0, &[Create, Drop, Create])]);
-        v.push(vec![prog(1, 2, &[Create, AbandonRemove]), prog(0, 0, &[Create, Drop, Create])]);
+        v.push((vec![prog(0, 0, &[Create, Drop]), prog(1, 0, &[Create, Drop])], false, 3));
+        v.push((vec![prog(0, 0, &[Create, Drop, Create, Drop]), prog(1, 0, &[Create, Drop, Create])], false, 2));
+        v.push((vec![prog(1, 2, &[Create, AbandonRemove]), prog(0, 0, &[Create, Drop, Create])], true, 2));
     }
-    // three threads: two of one role, one of the other
-    v.push(vec![prog(0, 0, &[Create, Drop]), prog(1, 0, &[Create, Drop]), prog(0, 0, &[Create])]);
     v
 }
 
@@ -634,7 +658,7 @@ fn random_case(rng: &mut vcore::rng::SplitMix, maxp: u64, weak: bool) -> ConcCas
         sched::random_preemptions(rng, est, n as u8, np)
     };
     let stale = if weak { (0..rng.range(1, 10)).map(|_| if rng.chance(1, 2) { rng.range(1, 3) as u8 } else { 0 }).collect() } else { vec![] };
-    ConcCase { threads, sched: Schedule { preempt, stale, weak } }
+    ConcCase { threads, probe: !rng.chance(1, 5), sched: Schedule { preempt, stale, weak } }
 }
 
 pub fn conc_parts(ctx: &mut Ctx) {
@@ -651,12 +675,11 @@ pub fn conc_parts(ctx: &mut Ctx) {
     // unregistered thread
     let _ = Pl::does_exist_cfg(&fresh_name().0, &config::<Pl>());
     if ctx.part_enabled("conc.exhaustive") {
-        let bound = ctx.scale(2usize, 3usize);
         let mut i = 0u64;
         let mut ok = true;
         let mut dims = vec![];
-        'outer: for threads in tiny_programs(!ctx.quick()) {
-            let base = ConcCase { threads: threads.clone(), sched: Schedule::default() };
+        'outer: for (threads, probe, b) in tiny_programs(!ctx.quick()) {
+            let base = ConcCase { threads: threads.clone(), probe, sched: Schedule::default() };
             let y = match run_conc(&base, &mut Obs::default()) {
                 Ok(info) => info.yields,
                 Err(_) => {
@@ -668,9 +691,10 @@ pub fn conc_parts(ctx: &mut Ctx) {
                 }
             };
             let n = threads.len();
-            // three threads (or long programs in the thorough tier): one preemption less
-            let b = if n == 3 || (bound == 3 && y > 150) { bound - 1 } else { bound };
-            dims.push(format!("{:?} <= {b}", threads.iter().map(|p| format!("{}{}:{:?}", if p.role == 0 { "S" } else { "R" }, p.var, p.ops)).collect::<Vec<_>>()));
+            dims.push(format!("{:?}{} <= {b} preemptions over {y} yield points", threads.iter().map(|p| format!("{}{}:{:?}", if p.role == 0 { "S" } else { "R" }, p.var, p.ops)).collect::<Vec<_>>(), if probe { "" } else { " (no probes)" }));
+            if std::env::var("C13_STATS").is_ok() && ctx.worker == 0 {
+                eprintln!("program {}", dims.last().unwrap());
+            }
             let lists = if n == 2 { sched::enumerate_preemptions(y + 2, 1, b) } else { sched::enumerate_preemptions(y + 2, n as u8, b) };
             for l in lists {
                 i += 1;
@@ -678,7 +702,7 @@ pub fn conc_parts(ctx: &mut Ctx) {
                     continue;
                 }
                 let preempt = if n == 2 { l.iter().map(|(a, _)| (*a, OTHER as u8)).collect() } else { l.clone() };
-                let c = ConcCase { threads: threads.clone(), sched: Schedule { preempt, ..Default::default() } };
+                let c = ConcCase { threads: threads.clone(), probe, sched: Schedule { preempt, ..Default::default() } };
                 if !exec_conc(ctx, "conc.exhaustive", &c) {
                     ok = false;
                     break 'outer;
@@ -693,7 +717,7 @@ pub fn conc_parts(ctx: &mut Ctx) {
         if !ctx.part_enabled(part) {
             continue;
         }
-        let total = if weak { ctx.scale(15_000u64, 400_000) } else { ctx.scale(60_000u64, 2_000_000) };
+        let total = if weak { ctx.scale(10_000u64, 300_000) } else { ctx.scale(30_000u64, 1_000_000) };
         let n = ctx.share(total);
         let mut rng = ctx.rng(part);
         let maxp = ctx.scale(3, 5);
